@@ -160,6 +160,11 @@ pub fn case_real(rd: &mut Rd) -> R<String> {
             5 => show(gamedig::games::eco::query_with_timeout(&ip, Some(port), &ts), |_| "response".to_string()),
             6 => show(gamedig::games::minecraft::protocol::query(&addr, ts, None), |r| canon(r)),
             7 => show(gamedig::games::minecraft::protocol::query_legacy(&addr, ts), |r| canon(r)),
+            // the generic entry point (a game of the definitions table by address and port): the bytes must reach the peer at that address
+            8 => {
+                let game = gamedig::GAMES.get("q3a").expect("q3a is in the definitions table");
+                show(gamedig::games::query::query_with_timeout(game, &ip, Some(port), ts), |r| crate::paths::show_generic(r))
+            }
             _ => show(raw::tcp_exchange(&addr, &ts, &payload), |r| digest(r)),
         }
     }))
